@@ -32,5 +32,5 @@ package syntax
 //@   requires bits: pow2n(size * base / 4) > 0
 //@   requires digits: size > 0 && numOK(s[i:i+size], base)
 //@   requires fits: numVal(s[i:i+size], base) < pow2n(size * base / 4)
-//@   ensures result == i + size
+//@   ensures result == i + size - 1
 //@   ensures sbout == sconcat(old(sbout), utf8enc(numVal(s[i:i+size], base)))
